@@ -507,11 +507,11 @@ def startTagText (o : Opts) (name : Str) (attrs : List Attr) : Str :=
 theorem step_startTag (o : Opts) (s : St) (ns : Option Str) (name : Str) (attrs : List Attr) :
     ∃ s', H5.Model.Serializer.step o s (.startTag ns name attrs) = .ok s' ∧ s'.out = s.out ++ startTagText o name attrs ∧
       (s.inCdata = false → s'.errors = s.errors) ∧
-      s'.inCdata = ((rcdataElements.elem name && !o.escapeRcdata) || s.inCdata) := by
+      s'.inCdata = ((rcdataElements.elem name && !o.escapeRcdata && htmlOrNone ns) || s.inCdata) := by
   simp only [H5.Model.Serializer.step]
   rw [foldl_attrs]
   unfold startTagText solidusText
-  generalize (rcdataElements.elem name && !o.escapeRcdata) = b1
+  generalize (rcdataElements.elem name && !o.escapeRcdata && htmlOrNone ns) = b1
   generalize (voidElements.elem name && o.useTrailingSolidus) = b3
   generalize (o.spaceBeforeTrailingSolidus || lastUnq o name attrs false) = b4
   refine ⟨_, rfl, ?_, ?_, ?_⟩
@@ -740,9 +740,9 @@ theorem step_endTag (o : Opts) (s : St) (ns : Option Str) (name : Str) :
   simp only [H5.Model.Serializer.step]
   have e : lit "</" = [60, 47] := by decide
   refine ⟨_, rfl, ?_, ?_⟩
-  · cases rcdataElements.elem name <;> cases h2 : s.inCdata <;> simp [St.emit, St.err, endTagText, e, h2]
+  · cases (rcdataElements.elem name && htmlOrNone ns) <;> cases h2 : s.inCdata <;> simp [St.emit, St.err, endTagText, e, h2]
   · intro hc
-    cases rcdataElements.elem name <;> simp [St.emit, hc]
+    cases (rcdataElements.elem name && htmlOrNone ns) <;> simp [St.emit, hc]
 
 /-- **C08c (4a) — end tag round trip.**  `</name>` for a name of the class above is read back as exactly the end tag
 token, no parse error, ending in the data state. -/
